@@ -542,6 +542,14 @@ pub fn check_traversals<P: TP, V: Val>(side: &mut Side<P, V>, env: &mut Env, sal
     drain!("into_iter", side.map.clone().into_iter(), |(p, v): (P, V)| (key_of(&p), v.id()), wk);
     drain!("into_keys", side.map.clone().into_keys(), |p: P| key_of(&p), wkeys);
     drain!("into_values", side.map.clone().into_values(), |v: V| v.id(), wvals);
+    // default-constructed iterators are empty
+    {
+        env.cur_op = "iter.default";
+        let mut d: prefix_trie::map::Iter<'_, P, V> = Default::default();
+        ensure!(d.next().is_none() && d.next().is_none(), "C03", "C03:iter.default", "Iter::default() yields an item");
+        let mut d: prefix_trie::map::IterMut<'_, P, V> = Default::default();
+        ensure!(d.next().is_none(), "C03", "C03:iter_mut.default", "IterMut::default() yields an item");
+    }
     // clones of partially consumed iterators yield the same remainder
     let k = if wk.is_empty() { 0 } else { (salt as usize) % (wk.len() + 1) };
     {
@@ -869,6 +877,14 @@ fn observe_inner<P: TP, V: Val>(side: &mut Side<P, V>, env: &mut Env, other_mode
     if f.has(3) {
         let salt = env.step as u64 * 31 + side.model.len() as u64;
         check_traversals(side, env, salt)?;
+    }
+    if f.has(20) {
+        // formatting is a public operation too
+        env.cur_op = "fmt";
+        let s1 = format!("{:?}", side.map);
+        let s2 = format!("{:?}", (&side.map).view());
+        ensure!(!s1.is_empty() && !s2.is_empty(), "C20", "C20:fmt:empty", "Debug output is empty");
+        env.cur_op = "";
     }
     if f.has(1) || f.has(2) || f.has(9) || f.has(10) || f.has(18) {
         let mut models: Vec<&Model> = vec![&side.model];
